@@ -59,6 +59,23 @@ Theorem abort_error_panic_invisible :
 Proof. exact (fun P => abort_error_panic_invisible_thm (St P) (wop P) (wout P) (rop P) (rout P) (wapply P) (wfail P) (rread P) (ro_out P)). Qed.
 Print Assumptions abort_error_panic_invisible.
 
+(* fn never returns because it ends its goroutine (runtime.Goexit, e.g. t.FailNow): neither a return
+   nor a panic. Only the deferred function of Updates / View runs, recover() is nil there, and it aborts:
+   nothing of the transaction is ever visible, the writer lock is released, and the call does not return. *)
+Theorem goexit_invisible :
+  forall (P : sem),
+    (forall (b : list (BStep P)) (w : World P), m_wf P w -> locked w = false ->
+        Forall (fun x => m_quiet P (List.length (txns w)) x = true) b ->
+        pub (fst (m_managed P true b Goexit w)) = pub w /\ locked (fst (m_managed P true b Goexit w)) = false) /\
+    (forall wr (b : list (BStep P)) (w : World P), m_wf P w -> locked w = false ->
+        Forall (fun x => m_no_begin_w P x = true) b ->
+        locked (fst (m_managed P wr b Goexit w)) = false) /\
+    (forall wr (b : list (BStep P)) (w : World P) h, snd (m_begin P wr w) = OHandle h ->
+        snd (m_body P b (fst (m_begin P wr w))) = false ->
+        last (snd (m_managed P wr b Goexit w)) OUnit = OFinGoexit).
+Proof. exact (fun P => goexit_invisible_thm (St P) (wop P) (wout P) (rop P) (rout P) (wapply P) (wfail P) (rread P) (ro_out P)). Qed.
+Print Assumptions goexit_invisible.
+
 Theorem lock_released :
   forall (P : sem),
     (forall h (w : World P) s, nth_error (txns w) h = Some (mkTxn true (Some s)) ->
@@ -159,6 +176,13 @@ Example nonvacuous_abort_error_panic :
   pub (fst (m_managed P0 true body_ok RetNil w0)) = [2; 1; 7] /\
   locked (fst (m_managed P0 true body_ok PanicV w0)) = false.
 Proof. exact (conj ex_quiet (conj ex_panic_prefix ex_managed_outcomes)). Qed.
+
+Example nonvacuous_goexit :
+  snd (m_managed P0 true body_ok Goexit w0) = [OW true; OHandle 1; OR true; OW true; OFinGoexit] /\
+  pub (fst (m_managed P0 true body_ok Goexit w0)) = [7] /\
+  locked (fst (m_managed P0 true body_ok Goexit w0)) = false /\
+  pub (fst (m_managed P0 false body_ok Goexit w0)) = [7].
+Proof. exact ex_goexit. Qed.
 
 Example nonvacuous_settled_readonly :
   let w := fst (m_commit P0 0 (fst (m_begin P0 true w0))) in
